@@ -73,9 +73,17 @@ ASSUMPTIONS = [
 
 CLASSES = ["cubic_even_hard", "cubic_odd_hard", "noncubic_hard", "cubic_soft_inside", "cubic_soft_touching", "noncubic_soft",
            "cut_extremes", "resolution_cubic", "resolution_noncubic", "plane_wave", "bandpass_mixed_sigma", "box_extremes",
-           "dtype_smooth"]
+           "dtype_smooth", "pixels_plus_small_pixel_size", "scale_extremes", "option_pairs", "history_inplace"]
 FILTERS = ["lowpass", "highpass", "bandpass"]
 SIGMAS = [0.5, 1, 2, 3, 4]
+# planted values (round 5): what a random generator rarely produces
+SMALL_PIX = [0.05, 0.06, 0.0834, 0.1, 0.125, 0.15, 0.2, 0.25, 0.3]            # pixel sizes in nm / sub-Angstrom sampling
+RARE_SIGMAS = [1e-9, 0.124, 0.125, float(np.nextafter(4.0, 0.0)), 4, 0.2]     # kernel radius int(4s+.5) flips between 0.124 and 0.125
+SCALE_EXPS = [-12, -10, -8, -7, -5, -3, 3, 6, 9, 12]                          # grey-value scales 1e-12 .. 1e12
+BOUNDARY_SIZES = [8, 9, 15, 16, 17, 31, 32, 33, 47, 48]                       # 2**k - 1, 2**k, 2**k + 1 and the extremes of 8..48
+PIXTYPES = {"int": int, "np.int64": np.int64, "float": float, "np.int32": np.int32, "np.uint8": np.uint8, "np.float32": np.float32,
+            "np.float64": np.float64}
+NEAR_TIE_EPS = [5e-7, 1e-7, 1e-8, 1e-9]                                       # distance of box*pix/res from a rounding tie k + 1/2
 
 
 def plan(tier):
@@ -371,10 +379,31 @@ def _noncubic(rng, big):
             return tuple(s)
 
 
+def _pixel_size(rng):
+    if rng.random() < 0.35:
+        return float(SMALL_PIX[int(rng.integers(0, len(SMALL_PIX)))])
+    return round(float(rng.uniform(0.5, 12.0)), 3)
+
+
+def _scale_exp(rng, extreme=False):
+    u = rng.random()
+    if not extreme and u < 0.35:
+        return 0.0
+    if u < 0.7:
+        pool = [e for e in SCALE_EXPS if abs(e) >= 5] if extreme else SCALE_EXPS
+        return float(pool[int(rng.integers(0, len(pool)))])
+    e = round(float(rng.uniform(-12, 12)), 2)
+    if extreme and abs(e) < 5:
+        e = float(np.copysign(5.0 + abs(e), e if e else -1.0))
+    return e
+
+
 def _sigma(rng, allow_zero=False):
     u = rng.random()
     if allow_zero and u < 0.3:
         return 0
+    if u > 0.93:
+        return RARE_SIGMAS[int(rng.integers(0, len(RARE_SIGMAS)))]
     if u < 0.75:
         s = SIGMAS[int(rng.integers(0, len(SIGMAS)))]
         return float(s) if rng.random() < 0.5 else s
@@ -382,9 +411,16 @@ def _sigma(rng, allow_zero=False):
 
 
 def _res_for(rng, n0, cut, pix):
-    """a resolution with round(n0*pix/res) == cut, well away from a rounding tie"""
+    """a resolution with round(n0*pix/res) == cut: mostly well away from a rounding tie, 15% planted 5e-7 .. 1e-9 inside a tie
+    (box*pix/res = cut +- (0.5 - eps): decidable independently of the evaluation order, float error is ~1e-15)"""
     d = float(rng.uniform(-0.42, 0.42))
-    return float(n0 * pix / (cut + d))
+    if rng.random() < 0.15:
+        eps = NEAR_TIE_EPS[int(rng.integers(0, len(NEAR_TIE_EPS)))]
+        d = (0.5 - eps) * (1 if rng.random() < 0.5 else -1)
+    res = float(n0 * pix / (cut + d))
+    if O.round_half_exact(n0, pix, res)[0] != cut:          # float rounding of res moved it over / too close to the tie: fall back
+        res = float(n0 * pix / (cut + 0.3 * np.sign(d)))
+    return res
 
 
 def gen(ctx, i, cls):
@@ -448,13 +484,32 @@ def gen(ctx, i, cls):
         c["mode_lp"] = ["pixels", "resolution"][int(rng.integers(0, 2))]
         c["mode_hp"] = ["pixels", "resolution"][int(rng.integers(0, 2))]
     elif cls == "box_extremes":
-        pool = [8, 9, 47, 48]
-        shape = tuple(int(pool[int(rng.integers(0, 4))]) for _ in range(3))
+        pool = BOUNDARY_SIZES
+        shape = tuple(int(pool[int(rng.integers(0, len(pool)))]) for _ in range(3))
         if rng.random() < 0.3:
             shape = (shape[0],) * 3
-        if not big and shape.count(47) + shape.count(48) == 3 and rng.random() < 0.5:
-            shape = (shape[0], 8, shape[2])
+        if not big and shape[0] * shape[1] * shape[2] > 36000 and rng.random() < 0.6:
+            shape = (shape[0], int(pool[int(rng.integers(0, 2))]), shape[2])
         s_lp, s_hp = _sigma(rng, True), _sigma(rng, True)
+    elif cls == "pixels_plus_small_pixel_size":
+        # cutoff in Fourier pixels AND a (small) pixel size: the pixel size only serves to report the resolution, the radius is the pixels
+        n = int(rng.integers(30, 49)) if rng.random() < 0.8 else _size(rng, big)
+        if rng.random() < (0.35 if big else 0.7):
+            shape = (n, int(rng.integers(8, 15)), int(rng.integers(8, 15)))
+        else:
+            shape = (n, n, n) if rng.random() < 0.5 else (n, int(rng.integers(8, 49)), int(rng.integers(8, 49)))
+        s_lp = s_hp = 0 if rng.random() < 0.7 else _sigma(rng)
+    elif cls == "scale_extremes":
+        shape = _noncubic(rng, big) if rng.random() < 0.5 else (lambda n: (n, n, n))(_size(rng, big))
+        c["kind"] = ["unit_sum", "normal", "unit_sum", "float32", "positive_offset", "whitened"][int(rng.integers(0, 6))]
+        s_lp, s_hp = _sigma(rng, True), _sigma(rng, True)
+        m = int(rng.integers(0, 4))
+        c["mode_lp"], c["mode_hp"] = ("pixels", "resolution")[m % 2], ("pixels", "resolution")[m // 2]
+    elif cls == "history_inplace":
+        shape = _noncubic(rng, False) if rng.random() < 0.5 else (lambda n: (n, n, n))(_size(rng, False))
+        s_lp, s_hp = _sigma(rng, True), _sigma(rng, True)
+    elif cls == "option_pairs":
+        shape = (8, 8, 8)                                   # placeholder: the case consists of sub-configurations, see below
     elif cls == "dtype_smooth":
         shape = _noncubic(rng, big) if rng.random() < 0.5 else (lambda n: (n, n, n))(_size(rng, big))
         c["kind"] = ["float32", "int16", "positive_offset", "smooth", "whitened", "uint8"][int(rng.integers(0, 6))]
@@ -480,6 +535,9 @@ def gen(ctx, i, cls):
             hp_cut = int(rng.integers(1, lp_cut + 1))
         elif lp_cut < hp_cut:
             lp_cut, hp_cut = hp_cut, lp_cut
+    elif cls == "pixels_plus_small_pixel_size":
+        lp_cut = max(1, half - int(rng.integers(0, 4))) if rng.random() < 0.85 else lp_cut
+        hp_cut = max(1, half - int(rng.integers(0, 4))) if rng.random() < 0.5 else int(rng.integers(1, lp_cut + 1))
     elif cls == "cut_extremes":
         lp_cut, hp_cut = (half, 1) if rng.random() < 0.6 else (1, half) if rng.random() < 0.5 else (half, half)
     elif cls == "bandpass_mixed_sigma":
@@ -495,7 +553,7 @@ def gen(ctx, i, cls):
                 n0, half = shape[0], shape[0] // 2
                 lp_cut = int(rng.integers(1, half + 1))
                 hp_cut = int(rng.integers(1, lp_cut + 1))
-            pix = round(float(rng.uniform(0.5, 12.0)), 3)
+            pix = _pixel_size(rng)
             res = _res_for(rng, n0, lp_cut, pix)
             others = {O.round_half_exact(m, pix, res)[0] for m in (shape[1], shape[2], max(shape), min(shape)) if m != n0}
             if lp_cut not in others and None not in others:
@@ -512,23 +570,28 @@ def gen(ctx, i, cls):
             c["tie"] = True
             hp_cut = int(rng.integers(1, lp_cut + 1))
         else:
-            c["pix"] = round(float(rng.uniform(0.5, 12.0)), 3)
+            c["pix"] = _pixel_size(rng)
             c["lp_res"] = _res_for(rng, n0, lp_cut, c["pix"])
         c["hp_res"] = _res_for(rng, n0, hp_cut, c["pix"])
-    elif rng.random() < 0.2:
+    elif cls == "pixels_plus_small_pixel_size":
         c["pix_with_pixels"] = True
-        c["pix"] = round(float(rng.uniform(0.5, 12.0)), 3)
+        c["pix"] = float([0.05, 0.06, 0.0834, 0.1, 0.05, 0.0834, 0.07, 0.125][int(rng.integers(0, 8))])
+    elif rng.random() < 0.25:
+        c["pix_with_pixels"] = True
+        c["pix"] = _pixel_size(rng)
     for key, n0_, cut_ in (("lp_res", n0, lp_cut), ("hp_res", n0, hp_cut)):
         if c.get(key) is not None and O.round_half_exact(n0_, c["pix"], c[key])[0] != cut_:
             raise RuntimeError("generator: resolution does not map back to the intended cutoff")
     c.update(shape=tuple(int(v) for v in shape), lp_cut=lp_cut, hp_cut=hp_cut, s_lp=s_lp, s_hp=s_hp)
-    c["pixtype"] = ["int", "int", "int", "np.int64", "float"][int(rng.integers(0, 5))]
+    c["pixtype"] = ["int", "int", "int", "np.int64", "float", "np.int32", "np.uint8", "np.float32", "np.float64"][int(rng.integers(0, 9))]
+    c["scale_exp"] = _scale_exp(rng, extreme=(cls == "scale_extremes")) if c["kind"] not in ("int16", "uint8") else 0.0
+    c["hom"] = float(rng.choice([-1, 1]) * 10.0 ** float(rng.choice([-12, -8, -7, -5, -3, 3, 7, 11])))
     c["rel_filter"] = FILTERS[int(rng.integers(0, 3))]
     c["roll"] = [int(rng.integers(-60, 61)) if rng.random() < 0.8 else 0 for _ in range(3)]
     if not any(c["roll"]):
         c["roll"][int(rng.integers(0, 3))] = int(rng.integers(1, 8))
     c["coef"] = [round(float(rng.uniform(-3, 3)), 3), round(float(rng.uniform(-3, 3)), 3)]
-    c["write"] = bool(rng.random() < 0.05)
+    c["write"] = bool(rng.random() < 0.1)
     if cls == "plane_wave":
         ks = []
         k2s = O.kindex(shape)[3]
@@ -550,11 +613,68 @@ def gen(ctx, i, cls):
         pick(k2s > 0)
         c["ks"] = ks
         c["phases"] = [round(float(rng.uniform(-1.2, 1.2)), 3) for _ in ks]
-        c["amp"] = round(float(rng.uniform(0.1, 50.0)), 3)
+        c["amp"] = [1e-7, 1e-12, 1e-9, 1e-5, 1e12, 1.0][int(rng.integers(0, 6))] if rng.random() < 0.5 else float("%.3e" % 10.0 ** rng.uniform(-12, 12))
         c["nontrivial"] = any(k[0] ** 2 + k[1] ** 2 + k[2] ** 2 > cc for k in ks) and any(0 < k[0] ** 2 + k[1] ** 2 + k[2] ** 2 <= cc for k in ks)
     c["summary"] = {k: c.get(k) for k in ("shape", "kind", "lp_cut", "hp_cut", "s_lp", "s_hp", "mode_lp", "mode_hp", "pix", "lp_res", "hp_res",
-                                         "defaults", "pix_with_pixels", "pixtype", "tie", "rel_filter", "roll", "coef", "ks", "phases", "amp", "write")}
+                                         "defaults", "pix_with_pixels", "pixtype", "tie", "rel_filter", "roll", "coef", "ks", "phases", "amp", "write",
+                                         "scale_exp", "hom")}
+    if cls == "option_pairs":
+        c["subs"] = _option_pair_subs(rng, i, big)
+        c["summary"] = {"subs": [sub["summary"] for sub in c["subs"]]}
     return c
+
+
+OPTION_AXES = {"mode_lp": ["pixels", "resolution", "pixels+pix"], "mode_hp": ["pixels", "resolution", "pixels+pix"],
+               "sig_lp": ["hard", "soft"], "sig_hp": ["hard", "soft", "default"], "write": [False, True],
+               "kind": ["normal", "float32", "int16", "unit_sum"], "box": ["cubic_even", "cubic_odd", "noncubic"],
+               "pixtype": ["int", "np.int64", "float", "np.float32"], "equal_cuts": [False, False, True], "small_pix": [False, True]}
+
+
+def _option_pair_subs(rng, i, big):
+    """sub-configurations on small boxes (cheap) whose option values are drawn independently and uniformly per axis, so that every
+    PAIR of in-quantifier options (cutoff form of either side x widths x defaults x file output x map dtype x box kind x argument
+    type x equal cutoffs x small pixel size) occurs together dozens of times per quick run"""
+    subs = []
+    for j in range(10 if not big else 14):
+        o = {k: v[int(rng.integers(0, len(v)))] for k, v in OPTION_AXES.items()}
+        n = int(rng.integers(8, 15))
+        if o["box"] == "cubic_even":
+            n += n % 2
+            shape = (n, n, n)
+        elif o["box"] == "cubic_odd":
+            n += 1 - n % 2
+            shape = (n, n, n)
+        else:
+            shape = (n, int(rng.integers(8, 15)), int(rng.integers(8, 15)))
+            if len(set(shape)) == 1:
+                shape = (n, n, n + 1)
+        n0, half = shape[0], shape[0] // 2
+        lp_cut = int(rng.integers(1, half + 1))
+        hp_cut = lp_cut if o["equal_cuts"] else int(rng.integers(1, lp_cut + 1))
+        pix = float(SMALL_PIX[int(rng.integers(0, len(SMALL_PIX)))]) if o["small_pix"] else round(float(rng.uniform(0.5, 12.0)), 3)
+        s_soft = _sigma(rng)
+        sub = {"i": i, "sub": j, "cls": "option_pairs", "shape": shape, "kind": o["kind"], "ks": None, "nontrivial": True,
+               "mode_lp": "resolution" if o["mode_lp"] == "resolution" else "pixels",
+               "mode_hp": "resolution" if o["mode_hp"] == "resolution" else "pixels",
+               "lp_cut": lp_cut, "hp_cut": hp_cut, "s_lp": 0 if o["sig_lp"] == "hard" else s_soft,
+               "s_hp": 0 if o["sig_hp"] == "hard" else (s_soft if rng.random() < 0.5 else _sigma(rng)),
+               "defaults": o["sig_hp"] == "default", "pixtype": o["pixtype"], "write": o["write"],
+               "rel_filter": FILTERS[int(rng.integers(0, 3))], "roll": [int(rng.integers(-20, 21)) or 1 for _ in range(3)],
+               "coef": [round(float(rng.uniform(-3, 3)), 3), round(float(rng.uniform(-3, 3)), 3)],
+               "scale_exp": _scale_exp(rng) if o["kind"] != "int16" else 0.0,
+               "hom": float(rng.choice([-1, 1]) * 10.0 ** float(rng.choice([-12, -8, -7, -5, -3, 3, 7, 11])))}
+        if sub["defaults"]:
+            sub["s_lp"], sub["s_hp"] = 3, 2
+        needs_pix = "resolution" in (sub["mode_lp"], sub["mode_hp"]) or "pixels+pix" in (o["mode_lp"], o["mode_hp"])
+        sub["pix"] = pix if needs_pix else None
+        sub["pix_with_pixels"] = "pixels+pix" in (o["mode_lp"], o["mode_hp"])
+        sub["lp_res"] = _res_for(rng, n0, lp_cut, pix) if sub["mode_lp"] == "resolution" else None
+        sub["hp_res"] = _res_for(rng, n0, hp_cut, pix) if sub["mode_hp"] == "resolution" else None
+        sub["summary"] = {k: sub[k] for k in ("shape", "kind", "lp_cut", "hp_cut", "s_lp", "s_hp", "mode_lp", "mode_hp", "pix", "lp_res", "hp_res",
+                                              "defaults", "pix_with_pixels", "pixtype", "write", "scale_exp")}
+        sub["summary"]["options"] = o
+        subs.append(sub)
+    return subs
 
 
 def nontrivial(case):
@@ -563,27 +683,33 @@ def nontrivial(case):
 
 # ---- driver -------------------------------------------------------------------------------------
 def make_field(case, rng, shape=None):
+    """the case's map; float kinds are multiplied by the case's grey-value scale 10**scale_exp (1e-12 .. 1e12): the filters are
+    linear, so every oracle judges relative to the map's own scale"""
     shape = shape or case["shape"]
     kind = case["kind"]
+    sc = 10.0 ** float(case.get("scale_exp", 0.0))
     x = rng.normal(size=shape)
     if kind == "float32":
-        return (x * float(rng.uniform(0.5, 20))).astype(np.float32)
+        return (x * float(rng.uniform(0.5, 20)) * sc).astype(np.float32)
     if kind == "int16":
         return rng.integers(-3000, 3000, size=shape).astype(np.int16)
     if kind == "uint8":
         return rng.integers(0, 256, size=shape).astype(np.uint8)
     if kind == "positive_offset":
-        return rng.uniform(0, 1, size=shape) + float(rng.uniform(1, 50))
+        return (rng.uniform(0, 1, size=shape) + float(rng.uniform(1, 50))) * sc
+    if kind == "unit_sum":                                  # a density normalised to unit sum: values ~ 1/N^3 ~ 1e-3 .. 1e-5
+        x = rng.random(shape)
+        return x / x.sum() * (sc if abs(case.get("scale_exp", 0.0)) < 5 else 1.0)
     if kind == "smooth":
         k2 = O.kindex(shape)[3]
-        return np.real(np.fft.ifftn(np.fft.fftn(x) * np.exp(-k2 / float(rng.uniform(6.0, 40.0))))) * 30.0
+        return np.real(np.fft.ifftn(np.fft.fftn(x) * np.exp(-k2 / float(rng.uniform(6.0, 40.0))))) * 30.0 * sc
     if kind == "whitened":
-        return O.whiten(x, rng)
-    return x * float(rng.uniform(0.01, 100.0)) + (float(rng.normal()) if rng.random() < 0.5 else 0.0)
+        return O.whiten(x, rng) * sc
+    return (x * float(rng.uniform(0.01, 100.0)) + (float(rng.normal()) if rng.random() < 0.5 else 0.0)) * sc
 
 
 def _pix(case, v):
-    return {"int": int, "np.int64": np.int64, "float": float}[case["pixtype"]](v)
+    return PIXTYPES[case["pixtype"]](v)
 
 
 def kwargs_for(case, which, pixels_only=False):
@@ -625,7 +751,7 @@ def _close(ctx, name, got, want, scale, info, tol=1e-9):
     return ok
 
 
-def drive_cutoff_rule(ctx, case):
+def drive_cutoff_rule(ctx, case, aux_stream=2):
     """Direct driver calls of the two monitored public helpers, with this case's in-quantifier cutoff specifications.
 
     Why: the filter_radius / res2pix monitors must not depend on cryoCAT's internal call structure.  On the current tree they are
@@ -635,8 +761,8 @@ def drive_cutoff_rule(ctx, case):
     forms: the cutoff as the case specifies it, as pixels, as pixels + pixel size, and as resolution + pixel size."""
     cm = ctx.cmap
     n0 = int(case["shape"][0])
-    aux = ctx.rng(case["i"], 2)
-    pix = case["pix"] if case["pix"] is not None else round(float(aux.uniform(0.5, 12.0)), 3)
+    aux = ctx.rng(case["i"], aux_stream)
+    pix = case["pix"] if case["pix"] is not None else _pixel_size(aux)
     for side in ("lp", "hp"):
         cut = int(case[side + "_cut"])
         res = case.get(side + "_res")
@@ -656,14 +782,27 @@ def drive_cutoff_rule(ctx, case):
 
 
 def run_case(ctx, case):
-    cm = ctx.cmap
+    if case["cls"] == "option_pairs":
+        for sub in case["subs"]:
+            ctx.cur = dict(ctx.cur or {}, sub=sub["sub"], sub_options=sub["summary"]["options"])
+            run_config(ctx, sub, ctx.rng(case["i"], 100 + sub["sub"]), aux_stream=200 + sub["sub"])
+        return
     rng = ctx.rng(case["i"], 1)
-    drive_cutoff_rule(ctx, case)
     if case["cls"] == "plane_wave":
+        drive_cutoff_rule(ctx, case)
         return run_plane_waves(ctx, case, case["shape"], case["ks"], case["phases"], case["amp"], with_bandpass=True)
+    run_config(ctx, case, rng)
+    if case["cls"] == "history_inplace":
+        run_history(ctx, case, ctx.rng(case["i"], 3))
+
+
+def run_config(ctx, case, rng, aux_stream=2):
+    cm = ctx.cmap
+    drive_cutoff_rule(ctx, case, aux_stream)
     x = make_field(case, rng)
     f64 = x.dtype == np.float64
-    info = {"box": list(case["shape"]), "lp_cut": case["lp_cut"], "hp_cut": case["hp_cut"], "s_lp": case["s_lp"], "s_hp": case["s_hp"]}
+    info = {"box": list(case["shape"]), "lp_cut": case["lp_cut"], "hp_cut": case["hp_cut"], "s_lp": case["s_lp"], "s_hp": case["s_hp"],
+            "map_scale": float(np.abs(x).max())}
     fns = {"lowpass": cm.lowpass, "highpass": cm.highpass, "bandpass": cm.bandpass}
     out = {}
     for which in FILTERS:
@@ -685,7 +824,7 @@ def run_case(ctx, case):
             if ok:
                 _close(ctx, "resolution_equiv", out[which], y2, float(np.abs(x).max()), dict(info, filter=which, pix=case["pix"],
                        lp_res=case.get("lp_res"), hp_res=case.get("hp_res")), tol=1e-12 if f64 else 1e-6)
-    # linearity and commutation with circular shifts, on one of the three filters
+    # linearity (additivity, homogeneity over many orders of magnitude) and commutation with circular shifts, on one of the filters
     which = case["rel_filter"]
     if which not in out:
         return
@@ -699,10 +838,65 @@ def run_case(ctx, case):
     tol = 1e-9 if f64 else 1e-5
     if ok2 and ok3:
         _close(ctx, "linearity", y3, a * out[which] + b * y2, scale, dict(info, filter=which, a=a, b=b), tol=tol)
+    h = case["hom"]
+    ok5, y5 = ctx.call(which, fn, h * xs, **kw)            # filter(h*x) == h*filter(x), h = +-1e-12 .. 1e11
+    if ok5:
+        _close(ctx, "linearity", y5, h * np.asarray(out[which], dtype=np.float64), abs(h) * float(np.abs(xs).max()),
+               dict(info, filter=which, clause="homogeneity filter(h*x) == h*filter(x)", h=h), tol=tol)
     s = case["roll"]
     ok4, y4 = ctx.call(which, fn, np.roll(x, s, axis=(0, 1, 2)), **kw)
     if ok4:
         _close(ctx, "shift_commute", y4, np.roll(out[which], s, axis=(0, 1, 2)), float(np.abs(xs).max()), dict(info, filter=which, roll=s), tol=tol)
+    if case["cls"] == "pixels_plus_small_pixel_size":
+        # the same first axis in a cheap box, the two cutoffs next to Nyquist x the smallest pixel sizes, hard edge: the call monitors
+        # judge the gain against fourier_pixels (the pixel size must not move the cutoff)
+        n0 = case["shape"][0]
+        z = O.whiten(rng.normal(size=(n0, 8, 9)), rng)
+        for cut in (n0 // 2, n0 // 2 - 1):
+            for pix in (0.05, 0.0417, 0.06, 0.0834):
+                f = (cm.lowpass, cm.highpass)[(cut + int(pix * 1e4)) % 2]
+                ctx.call("lowpass" if f is cm.lowpass else "highpass", f, z.copy(), fourier_pixels=_pix(case, cut), pixel_size=pix, gaussian=0)
+
+
+def run_history(ctx, case, rng):
+    """Three-step history on ONE caller-owned array that is modified in place between the calls.  The array object itself is handed
+    to cryoCAT (no copy); every call is judged by the call monitors against the values the array holds at that moment (they snapshot
+    the argument when the call starts), and the driver relates the steps through linearity: step 2 sees h*A, step 3 sees h*A + B."""
+    cm = ctx.cmap
+    fns = {"lowpass": cm.lowpass, "highpass": cm.highpass, "bandpass": cm.bandpass}
+    which = case["rel_filter"]
+    fn, kw = fns[which], kwargs_for(case, which)
+    A = np.asarray(make_field(dict(case, kind="normal"), rng), dtype=np.float64)
+    B = np.asarray(make_field(dict(case, kind="normal"), rng), dtype=np.float64)
+    info = {"box": list(case["shape"]), "filter": which, "history": "call(A); A *= h; call(A); A += B; call(A)"}
+    a0 = A.copy()
+    ok1, y1 = ctx.call(which, fn, A, **kw)
+    if not ok1:
+        return
+    y1 = np.array(y1, dtype=np.float64, copy=True)
+    h = float(case["hom"]) if abs(np.log10(abs(case["hom"]))) <= 8 else -2.5
+    A *= h                                                  # in place: same object, new values
+    ok2, y2 = ctx.call(which, fn, A, **kw)
+    if ok2:
+        y2 = np.array(y2, dtype=np.float64, copy=True)
+        _close(ctx, "linearity", y2, h * y1, abs(h) * float(np.abs(a0).max()), dict(info, step=2, h=h))
+    A += B
+    np.negative(A[::2], out=A[::2])                         # and a non-uniform in-place edit
+    a2 = A.copy()
+    ok3, y3 = ctx.call(which, fn, A, **kw)
+    if ok3:
+        # y3 must be the filter of the CURRENT content a2 = S*(h*a0 + B), S = sign pattern: relate through a fresh call on a copy
+        okc, yc = ctx.call(which, fn, a2.copy(), **kw)
+        if okc:
+            _close(ctx, "linearity", y3, np.asarray(yc, dtype=np.float64), float(np.abs(a2).max()), dict(info, step=3, clause="same content, same result"))
+    # another filter on the same (again modified) array
+    A[...] = np.roll(A, case["roll"], axis=(0, 1, 2))
+    other = FILTERS[(FILTERS.index(which) + 1) % 3]
+    ok4, y4 = ctx.call(other, fns[other], A, **kwargs_for(case, other))
+    ok5, y5 = ctx.call(other, fns[other], a2.copy(), **kwargs_for(case, other))
+    if ok4 and ok5:
+        _close(ctx, "shift_commute", y4, np.roll(np.asarray(y5, dtype=np.float64), case["roll"], axis=(0, 1, 2)), float(np.abs(a2).max()),
+               dict(info, step=4, filter=other, roll=case["roll"]))
 
 
 def run_plane_waves(ctx, case, shape, ks, phases, amp, with_bandpass):
@@ -821,6 +1015,32 @@ def extra(ctx):
             ctx.call("get_filter_radius", cm.get_filter_radius, N, None, res, pix)
             n += 1
     ctx.extra["resolution_rule_all_edges_8_to_48_times_all_cutoffs"] = n
+    # (3a) cutoff in Fourier pixels AND a pixel size (the documented form lowpass(map, fourier_pixels=39, pixel_size=7.89)): the radius is
+    #      the pixels, whatever the pixel size - every (edge 8..48, cutoff 1..N/2) x small and ordinary pixel sizes
+    n = 0
+    pix_list = SMALL_PIX + [0.07, 0.834, 1.0, 1.5, 7.89, 0.0417]
+    for N in range(8, 49):
+        for cut in range(1, N // 2 + 1):
+            ctx.cur = {"index": "extra", "cls": "pixels_and_pixel_size_sweep", "summary": {"edge": N, "cut": cut}}
+            for pix in pix_list:
+                ctx.call("get_filter_radius", cm.get_filter_radius, edge_size=N, fourier_pixels=cut, target_resolution=None, pixel_size=pix)
+                n += 1
+    ctx.extra["get_filter_radius_pixels_plus_pixel_size_all_edges_all_cutoffs_x_%d_pixel_sizes" % len(pix_list)] = n
+    #      ... and the rule 5e-7 .. 1e-9 on either side of a rounding tie (box*pix/res = cut -+ (0.5 - eps))
+    n = 0
+    for N in range(8, 49):
+        for cut in range(1, N // 2 + 1):
+            pix = float(SMALL_PIX[(N + cut) % len(SMALL_PIX)]) if (N + cut) % 2 else round(float(rng.uniform(0.3, 15.0)), 4)
+            for eps in NEAR_TIE_EPS:
+                for sgn in (1, -1):
+                    res = float(N * pix / (cut + sgn * (0.5 - eps)))
+                    if O.round_half_exact(N, pix, res)[0] != cut:
+                        continue
+                    ctx.cur = {"index": "extra", "cls": "near_ties", "summary": {"edge": N, "cut": cut, "pix": pix, "res": res, "eps": eps}}
+                    ctx.call("resolution2pixels", cm.resolution2pixels, res, N, pix, print_out=False)
+                    ctx.call("get_filter_radius", cm.get_filter_radius, N, None, res, pix)
+                    n += 1
+    ctx.extra["resolution_rule_1e-9_to_5e-7_from_a_rounding_tie"] = n
     # (3b) exact rounding ties k + 1/2 with k odd (half-even and half-up agree on k + 1): the rule itself on every such tie of every
     #      edge 8..48, and the three filters + the plane wave at frequency k + 1 (must pass the low-pass) on a subset
     n = nf = 0
